@@ -1733,11 +1733,9 @@ vnaproperty_t *vnaproperty_vget_subtree(const vnaproperty_t *root,
      */
     if (scanner->scn_token != T_EOF) {
 	errno = EINVAL;
-	anchor = NULL;
-	goto out;
+	parser_free(&parser);
+	return NULL;
     }
-
-out:
     parser_free(&parser);
     return *anchor;
 }
